@@ -661,9 +661,10 @@ Fixpoint Lifecycle_run (s : Lifecycle_state) (acts : list Lifecycle_action) : op
 Inductive Lifecycle_obs :=
 | LcObsOpenRet (r : lc_open_res) (solo : bool)
     (* an Open returned; solo: no other Open/Close call overlapped it *)
-| LcObsCloseRet (r : lc_close_res) (goroutines sockets loops : nat) (selected_state_after : bool)
-    (* a Close returned: library goroutines alive, conns/listeners still open, reconnect loops live,
-       and whether State() read after the return is something other than NotConnected *)
+| LcObsCloseRet (r : lc_close_res) (calm : bool) (goroutines sockets loops : nat) (selected_state_after : bool)
+    (* a Close returned; calm: no other Open/Close call overlapped it, and then: library goroutines
+       alive, conns/listeners still open, reconnect loops live, and whether State() read after the
+       return is something other than NotConnected *)
 | LcObsOpenCall                       (* an Open call was issued *)
 | LcObsDial (ok : bool)               (* the dialer / listener factory was invoked *)
 | LcObsPublish                        (* a reconnect generation was published *)
@@ -672,9 +673,9 @@ Inductive Lifecycle_obs :=
     (* a sample: connection open, state NotConnected, and whether a loop / Start / react / listener covers it *)
 
 Definition lc_close_snapshot (r : lc_close_res) (s : Lifecycle_state) : Lifecycle_obs :=
-  LcObsCloseRet r (Lifecycle_goroutines s) (Lifecycle_sockets s) (Lifecycle_loops s) (negb (lc_is_nc (lc_st s))).
+  LcObsCloseRet r true (Lifecycle_goroutines s) (Lifecycle_sockets s) (Lifecycle_loops s) (negb (lc_is_nc (lc_st s))).
 
-(** What a step of the model shows to an observer. *)
+(** What a step of the model shows to an observer. (In the model lifeMu makes every call solo.) *)
 Definition Lifecycle_observe1 (s : Lifecycle_state) (a : Lifecycle_action) (s' : Lifecycle_state) : list Lifecycle_obs :=
   match a with
   | LcOpen _ =>
@@ -695,7 +696,7 @@ Definition Lifecycle_observe1 (s : Lifecycle_state) (a : Lifecycle_action) (s' :
   | LcOFailJoin => [LcObsOpenRet LcOpenErrStart true]
   | LcClose =>
     match lc_api s' with
-    | LcIdle => if lc_hascur s then [lc_close_snapshot LcCloseRetained s'] else [LcObsCloseRet LcCloseNotOpen 0 0 0 false]
+    | LcIdle => if lc_hascur s then [lc_close_snapshot LcCloseRetained s'] else [LcObsCloseRet LcCloseNotOpen true 0 0 0 false]
     | _ => []
     end
   | LcClose7 => [lc_close_snapshot LcCloseOk s']
@@ -713,28 +714,35 @@ Fixpoint Lifecycle_observe (s : Lifecycle_state) (acts : list Lifecycle_action) 
     end
   end.
 
-(** Monitor state: is the connection open (as the API results imply), and has a Close returned
-    with no Open call since. *)
-Record lc_mon := LcMon { lm_open : bool; lm_closed : bool; lm_ok : bool }.
-Definition lc_mon0 : lc_mon := LcMon false false true.
+(** Monitor state: is the connection open as the API results imply ([lm_unknown]: calls have
+    overlapped since the last solo result, so the monitor cannot tell), and has a calm Close
+    returned with no Open call since. *)
+Record lc_mon := LcMon { lm_open : bool; lm_unknown : bool; lm_closed : bool; lm_ok : bool }.
+Definition lc_mon0 : lc_mon := LcMon false false false true.
 
 Definition lc_mon_step (m : lc_mon) (o : Lifecycle_obs) : lc_mon :=
   match o with
-  | LcObsOpenCall => LcMon (lm_open m) false (lm_ok m)
+  | LcObsOpenCall => LcMon (lm_open m) (lm_unknown m) false (lm_ok m)
   | LcObsOpenRet r solo =>
     match r with
-    | LcOpenAlready => LcMon (lm_open m) (lm_closed m) (lm_ok m && (negb solo || lm_open m))
-    | LcOpenErrStart => LcMon false (lm_closed m) (lm_ok m && (negb solo || negb (lm_open m)))
-    | _ => LcMon true (lm_closed m) (lm_ok m && (negb solo || negb (lm_open m)))
+    | LcOpenAlready =>
+      LcMon (if solo then true else lm_open m) (negb solo) (lm_closed m)
+            (lm_ok m && (negb solo || lm_unknown m || lm_open m))
+    | LcOpenErrStart =>
+      LcMon false (negb solo) (lm_closed m) (lm_ok m && (negb solo || lm_unknown m || negb (lm_open m)))
+    | _ =>
+      LcMon true (negb solo) (lm_closed m) (lm_ok m && (negb solo || lm_unknown m || negb (lm_open m)))
     end
-  | LcObsCloseRet r g k l sel =>
+  | LcObsCloseRet r calm g k l sel =>
     match r with
-    | LcCloseNotOpen => m
-    | _ => LcMon false true (lm_ok m && (g =? 0) && (k =? 0) && (l =? 0) && negb sel)
+    | LcCloseNotOpen => LcMon (lm_open m) (lm_unknown m) (lm_closed m) (lm_ok m && (negb calm || lm_unknown m || negb (lm_open m)))
+    | _ => if calm
+           then LcMon false false true (lm_ok m && (g =? 0) && (k =? 0) && (l =? 0) && negb sel)
+           else LcMon false true (lm_closed m) (lm_ok m)
     end
-  | LcObsDial _ | LcObsPublish => LcMon (lm_open m) (lm_closed m) (lm_ok m && negb (lm_closed m))
-  | LcObsReconnects a b => LcMon (lm_open m) (lm_closed m) (lm_ok m && (a =? b))
-  | LcObsLoopCheck o nc cov => LcMon (lm_open m) (lm_closed m) (lm_ok m && (negb (o && nc) || cov))
+  | LcObsDial _ | LcObsPublish => LcMon (lm_open m) (lm_unknown m) (lm_closed m) (lm_ok m && negb (lm_closed m))
+  | LcObsReconnects a b => LcMon (lm_open m) (lm_unknown m) (lm_closed m) (lm_ok m && (a =? b))
+  | LcObsLoopCheck o nc cov => LcMon (lm_open m) (lm_unknown m) (lm_closed m) (lm_ok m && (negb (o && nc) || cov))
   end.
 
 Definition lc_mon_run (l : list Lifecycle_obs) : lc_mon := fold_left lc_mon_step l lc_mon0.
